@@ -80,6 +80,19 @@ Definition angle_ok (t : Z * Z * Z) (r : f32) : bool :=
   ffinite r && fle (f_of_Z 0) r && fle r fpi &&
   (Z.abs (cos_fx (fx_of_dy (dyv r)) * tri_D t - tri_N t * FX) <=? 4398046511104 * (tri_D t + tri_S t)).
 
+(* sides that are small integers over a common power of two: every square, the sum, the difference and 2ab are then
+   exactly representable, the quotient is the correctly rounded exact cosine, and an existing triangle - degenerate
+   ones included - cannot come out as NaN *)
+Fixpoint strip_twos (fuel : nat) (t : Z * Z * Z) : Z * Z * Z :=
+  match fuel with
+  | O => t
+  | S f => let '(A, B, C) := t in
+           if Z.even A && Z.even B && Z.even C && negb ((A =? 0) && (B =? 0) && (C =? 0))
+           then strip_twos f (A / 2, B / 2, C / 2) else t
+  end.
+Definition tri_small (t : Z * Z * Z) : bool :=
+  let '(A, B, C) := strip_twos 300 t in (A <? 2048) && (B <? 2048) && (C <? 2048).
+
 Definition loc_spec (strict : bool) (a b c : f32) (is_nan : bool) (r : f32) : bool :=
   if negb (tri_moderate a b c) then true else
   match tri_ints a b c with
@@ -87,7 +100,7 @@ Definition loc_spec (strict : bool) (a b c : f32) (is_nan : bool) (r : f32) : bo
   | Some t =>
       if tri_safe t then negb is_nan && angle_ok t r
       else if tri_safely_none t then is_nan
-      else if strict && tri_exists t then negb is_nan      (* the strict reading of the property *)
+      else if (strict || tri_small t) && tri_exists t then negb is_nan      (* the strict reading of the property; exact arithmetic *)
       else true
   end.
 
